@@ -88,8 +88,8 @@ Act(op, x, y, arg) == [op |-> op, x |-> x, y |-> y, arg |-> arg]
 PowN(op) == CASE op = "pow2" -> RInt(2) [] op = "np.sqrt" -> R(1, 2) [] op = "np.cbrt" -> R(1, 3) [] op = "np.power" -> RInt(3)
 
 \* is the call refused (an exception) - by the ideal's reading of the documentation
-Refuses(A, io) ==
-  LET X == io[A.x]  Y == IF A.y > 0 THEN io[A.y] ELSE io[A.x] IN
+\* (X, Y: the operand objects; the machine asks the same question about ITS view of the operands)
+RefusesOn(A, X, Y) ==
   CASE A.op \in {"add", "sub"} -> Dim(X.u) # Dim(Y.u) \/ ((IsLog(X.u) \/ IsLog(Y.u)) /\ X.u # Y.u)
     [] A.op = "div" -> Y.z
     [] A.op = "mul" -> FALSE
@@ -108,6 +108,7 @@ Refuses(A, io) ==
     [] A.op = "value" -> ~Convertible(X.u, A.arg)
     [] A.op = "to" -> ~Convertible(X.u, A.arg)
     [] OTHER -> FALSE
+Refuses(A, io) == RefusesOn(A, io[A.x], IF A.y > 0 THEN io[A.y] ELSE io[A.x])
 
 \* units of a result from the units of the operands (also used by the machine with ITS units)
 ResUnit(A, ux, uy) ==
